@@ -315,7 +315,10 @@ impl Monitor for C16 {
                     *x *= s;
                 }
             }
-            let c = *rng.pick(&[1.0, 1000.0, 0.125, 0.1, 1.0 / 3.0, 123.456, 7.0]);
+            let mut c = *rng.pick(&[1.0, 1000.0, 0.125, 0.1, 1.0 / 3.0, 123.456, 7.0, 0.0]);
+            if c == 0.0 && matches!(v.kind, Kind::Roc(_)) {
+                c = 7.0;
+            }
             let flat_len = n + 1 + rng.usize(0, 2 * n);
             if idx % 43 == 0 {
                 out.sample(format!("flat: {} after a {} prefix of {} values, then {} x {:?}", Spec::leaf(v.kind).show(), if wide { "wide-range" } else { "three-decade" }, plen, flat_len, c));
@@ -341,7 +344,7 @@ impl Monitor for C16 {
         v
     }
     fn rule(&self) -> String {
-        "trial = (one of 25 views; N; clause; value grid dyadic or tenths; scalar f64, or f32 in thorough). drift: three-decade stream (values in [1,1000], non-zero steps in [1/8,100]) of 1e5 (quick) / 1e6 (thorough) values (shorter for O(N)-per-update and recursive views), f64 output vs exact reference at 200 checkpoints and each of the last 2N steps, 1e-6 of natural scale (f32: 1e-2, 1e4 values). flat: three-decade or wide-range (x 2^0..2^20) volatile prefix then N+1..3N copies of c in {1, 1000, 1/8, 0.1, 1/3, 123.456, 7}, every step whose window is flat, 1e-4 of scale. Reference: exact batch oracle over the recent inputs for windowed views; fresh f64 instance on the last S(N) inputs for recursive ones. distinct = distinct (view, N, clause, scalar, stream)".into()
+        "trial = (one of 25 views; N; clause; value grid dyadic or tenths; scalar f64, or f32 in thorough). drift: three-decade stream (values in [1,1000], non-zero steps in [1/8,100]) of 1e5 (quick) / 1e6 (thorough) values (shorter for O(N)-per-update and recursive views), f64 output vs exact reference at 200 checkpoints and each of the last 2N steps, 1e-6 of natural scale (f32: 1e-2, 1e4 values). flat: three-decade or wide-range (x 2^0..2^20) volatile prefix then N+1..3N copies of c in {1, 1000, 1/8, 0.1, 1/3, 123.456, 7, 0}, every step whose window is flat, 1e-4 of scale. Reference: exact batch oracle over the recent inputs for windowed views; fresh f64 instance on the last S(N) inputs for recursive ones. distinct = distinct (view, N, clause, scalar, stream)".into()
     }
     fn assumptions(&self) -> Vec<String> {
         vec![
